@@ -143,7 +143,11 @@ func runHelperProgram(ops []hop, usePosts, warm bool) (string, string) {
 		for _, o := range ops {
 			switch o.kind {
 			case "mk":
-				objs = append(objs, z.Struct(schemaOf(o.fields)))
+				if len(o.fields) == 0 && o.asMap {
+					objs = append(objs, z.Struct(nil)) // a nil field map is a schema without fields too
+				} else {
+					objs = append(objs, z.Struct(schemaOf(o.fields)))
+				}
 			case "test":
 				if o.i < len(objs) {
 					id := o.t
@@ -180,7 +184,11 @@ func runHelperProgram(ops []hop, usePosts, warm bool) (string, string) {
 				}
 			case "extend":
 				if o.i < len(objs) {
-					objs = append(objs, objs[o.i].Extend(schemaOf(o.fields)))
+					if len(o.fields) == 0 && o.asMap {
+						objs = append(objs, objs[o.i].Extend(nil))
+					} else {
+						objs = append(objs, objs[o.i].Extend(schemaOf(o.fields)))
+					}
 				}
 			case "merge":
 				if o.i < len(objs) && o.j < len(objs) {
@@ -236,7 +244,7 @@ func runHelperProgram(ops []hop, usePosts, warm bool) (string, string) {
 
 func streamHelpers(seed uint64, n int, driver string) (*Summary, error) {
 	sum := newSummary("helpers", seed)
-	sum.Rule = "random programs (3..14 ops) over Struct (also without fields) / Test|PostTransform / Pick / Omit / Extend (also with nothing) / Merge with two and with three operands; bases are given several tests first so that their slices have spare capacity; siblings are derived from one base and extended in interleaved orders; Pick/Omit take strings, one map[string]bool, or a mixed argument list; a Pick in three also names keys its receiver does not have (strings, several maps, false entries for keys selected by another argument); afterwards every schema object is executed and observed; each program runs four times (Tests / PostTransforms x objects first executed at the end / every object executed after each step); non-trivial = at least two objects derived from one base, one of them extended afterwards; distinct = distinct program"
+	sum.Rule = "random programs (3..14 ops) over Struct (also without fields: Schema{} and a nil Schema) / Test|PostTransform / Pick / Omit / Extend (also with nothing) / Merge with two and with three operands; bases are given several tests first so that their slices have spare capacity; siblings are derived from one base and extended in interleaved orders; Pick/Omit take strings, one map[string]bool, or a mixed argument list; a Pick in three also names keys its receiver does not have (strings, several maps, false entries for keys selected by another argument); afterwards every schema object is executed and observed; each program runs four times (Tests / PostTransforms x objects first executed at the end / every object executed after each step); non-trivial = at least two objects derived from one base, one of them extended afterwards; distinct = distinct program"
 	root := rng.New(seed)
 	var lines []string
 	var progs [][]hop
@@ -285,7 +293,7 @@ func streamHelpers(seed uint64, n int, driver string) (*Summary, error) {
 			return out
 		}
 		fs := mkFields()
-		ops = append(ops, hop{kind: "mk", fields: fs})
+		ops = append(ops, hop{kind: "mk", fields: fs, asMap: r.P(1, 2)})
 		keysOf = append(keysOf, keysFrom(fs))
 		for i := r.Range(0, 4); i > 0; i-- {
 			ops = append(ops, hop{kind: "test", i: 0, t: nextTest})
@@ -299,7 +307,7 @@ func streamHelpers(seed uint64, n int, driver string) (*Summary, error) {
 			switch r.Intn(8) {
 			case 0:
 				fs := mkFields()
-				ops = append(ops, hop{kind: "mk", fields: fs})
+				ops = append(ops, hop{kind: "mk", fields: fs, asMap: r.P(1, 2)})
 				keysOf = append(keysOf, keysFrom(fs))
 			case 1, 2, 3:
 				ops = append(ops, hop{kind: "test", i: i, t: nextTest})
@@ -355,7 +363,7 @@ func streamHelpers(seed uint64, n int, driver string) (*Summary, error) {
 				keysOf = append(keysOf, rest)
 			case 6:
 				fs := mkFields()
-				ops = append(ops, hop{kind: "extend", i: i, fields: fs})
+				ops = append(ops, hop{kind: "extend", i: i, fields: fs, asMap: r.P(1, 2)})
 				derivedFrom[len(keysOf)] = i
 				keysOf = append(keysOf, union(keysOf[i], keysFrom(fs)))
 			case 7:
